@@ -22,7 +22,7 @@ LEVEL = "exploration"
 RULE = (
     "races generated as for C01 but biased to many short steps, over-commit (several rows between two join points), tasks that outlast the 30 s "
     "post-processing tick, composite operations, plus classes with a small sample queue or a down-sampling factor; a third of the races run with "
-    "seeded line-level preemption inside Worker.receiveMsg_WakeupMessage / drive / send_samples; non-trivial = at least 10 samples and 2 steps; "
+    "seeded line-level preemption inside Worker.receiveMsg_WakeupMessage / drive / send_samples / Sampler.samples; non-trivial = at least 10 samples and 2 steps; "
     "distinct = hash of the case"
 )
 ASSUMPTIONS = [
@@ -34,7 +34,7 @@ REQUIRED_CLAUSES = [
     "added=shipped", "shipped=received", "received=postprocessed", "records-per-request", "record-identity", "no-record-without-request",
     "handed-over=bulk-added", "dependent-timings", "queue-drops-only-when-full", "downsample-reduces-only", "throughput-from-all-samples", "queue-capacity-as-configured",
 ]
-REQUIRED_FEATURES = {"over-commit": 3, "long-task-ticks": 2, "composite": 2, "small-queue": 2, "downsample": 2, "fine-preemption": 5, "multi-worker": 5}
+REQUIRED_FEATURES = {"over-commit": 3, "long-task-ticks": 2, "composite": 2, "small-queue": 2, "downsample": 2, "fine-preemption": 5, "multi-worker": 5, "meta-key-named-client-id": 5}
 BUDGET = {"quick": {"cases": 700, "seconds": 27}, "thorough": {"cases": 15000, "seconds": 700}}
 
 
@@ -95,6 +95,20 @@ def gen_case(rng):
             "composite": gen_composite(rng, name),
             "svc": {"mode": "const", "base": 0.1, "seed": 1},
         }]})
+    # meta data whose key collides with the one rally itself adds to every record: a `client_id` in the meta block of a task or an operation
+    # (docs/track.rst: arbitrary key-value pairs) or in what a custom runner returns must not replace the id of the executing client
+    if rng.random() < 0.2:
+        plain = [t for el in case["elements"] for t in el["tasks"] if t.get("composite") is None and t.get("real_op") is None]
+        for t in rng.sample(plain, min(len(plain), rng.choice([1, 2, 3]))):
+            where = rng.choice(["task", "operation", "runner"])
+            value = rng.choice(["tenant-42", 9999, "web-frontend"])
+            if where == "task":
+                t["meta"] = {"client_id": value, "team": "search"}
+            elif where == "operation":
+                t["op_meta"] = {"client_id": value}
+            else:
+                t["requests"] = [[dict(r, ret={"client_id": value}) for r in reqs] for reqs in t["requests"]]
+            case["meta_collides"] = True
     r = rng.random()
     if r < 0.1:
         case["ini"] = {"reporting": {"sample.queue.size": rng.choice([1, 3, 8])}}
@@ -229,7 +243,7 @@ def make_instrument(case, rng):
         if case.get("fine"):
             w = driver.Worker
             tr.preempt = preempt.Preempt(k, [w.receiveMsg_WakeupMessage.__wrapped__ if hasattr(w.receiveMsg_WakeupMessage, "__wrapped__") else inner(w.receiveMsg_WakeupMessage),
-                                             w.drive, w.send_samples], prob=0.25, delta=case.get("preempt_delta", 0.002), rng=rng,
+                                             w.drive, w.send_samples, orig_samples.fget], prob=0.25, delta=case.get("preempt_delta", 0.002), rng=rng,
                                          executor_functions=[driver_sampler_add_original()])
             tr.preempt.enable()
             undo.append(tr.preempt.disable)
@@ -457,6 +471,8 @@ def one_case(ctx, rng, explicit=None):
         feats.add("long-task-ticks")
     if len(tr.workers) > 1:
         feats.add("multi-worker")
+    if case.get("meta_collides"):
+        feats.add("meta-key-named-client-id")
     if case.get("fine"):
         feats.add("fine-preemption")
         ctx.feature("preemption-points", tr.preempt.points)
@@ -509,7 +525,7 @@ MANIFEST = {
     "sub-request) and conservation at every stage of the pipeline (sampler -> UpdateSamples -> driver -> post-processing -> hand-over -> race control), under "
     "seeded message interleavings and line-level preemption between worker actor and executor in both directions (executor code inside an actor handler, the actor's wake-up inside Sampler.add). "
     "The client id of a record is compared with the id rally stored on the HTTP node the request travelled through; the capacity of every worker's sample queue, observed at the queue, must be the configured sample.queue.size (default 2^20).",
-    "note": "Same actor/ES model as C01; preemption points are statement boundaries of three Worker methods.",
+    "note": "Same actor/ES model as C01; preemption points are statement boundaries of three Worker methods, of Sampler.samples (actor side) and of Sampler.add (executor side).",
     "technique": "runtime monitor: unique-id exactly-once + stage conservation check over the recorded sample pipeline of simulated races (incl. injected line-level preemption)",
     "engines": ["vclock", "simactor", "simes", "race"],
     "engine": "race",
